@@ -246,6 +246,14 @@ def _judge(case, obs):
                 st = ob["state"]
         if st is None:
             return None, set()
+        # "the minimum / the maximum / the observed range" are those of the values that went in
+        rng_ = C13.observed_range(case["prog"])
+        if rng_ is not None and rng_[2] and st["bins"]:
+            mn_, mx_ = Fraction(float.fromhex(st["min"])), Fraction(float.fromhex(st["max"]))
+            if (mn_, mx_) != (rng_[0], rng_[1]):
+                return (f"the estimators work from the range [{float(mn_)!r}, {float(mx_)!r}] but the observed values span "
+                        f"[{float(rng_[0])!r}, {float(rng_[1])!r}]: quantile(0) / quantile(1) are not the minimum / maximum and count_at is None "
+                        f"(or not None) at the wrong ends"), set()
         answers = obs["obs"][n_build:]
         if len(answers) != len(case["xs"]) + len(case["qs"]):
             return "a query raised: " + str(obs["obs"][-1]), set()
